@@ -166,6 +166,7 @@ def generate(repo):
     cv, _ = load(repo, 'prysm/convolution.py')
     ot, _ = load(repo, 'prysm/otf.py')
     dg, _ = load(repo, 'prysm/degredations.py')
+    ob, _ = load(repo, 'prysm/objects.py')
     dt, _ = load(repo, 'prysm/detector.py')
     ft, _ = load(repo, 'prysm/fttools.py')
 
@@ -563,6 +564,101 @@ def generate(repo):
         return f'def olpfFt {KH} (cos : K → K) (fx fy width_x width_y : K) : K :=\n  ' + body_to_lean(fn.body, tr)
     g.item('olpf_ft', 'prysm/detector.py:olpf_ft', lambda: get_def(dt, 'olpf_ft'), olpf,
            f'def olpfFt {KH} (cos : K → K) (fx fy width_x width_y : K) : K := {M}.olpfFt cos fx fy width_x width_y')
+
+    # ------------------------------------------------------------------ analytic transforms of objects (objects.py)
+    def slit():
+        fn = get_def(ob, 'slit_ft')
+        tr = Tr({k: k for k in ('fx', 'fy', 'width_x', 'width_y')}, mode='num', funcs={'np.sinc': 'sinc'})
+        COND = {'width_x is not None and width_y is not None': '(hasx && hasy)', 'width_y is not None and width_x is not None': '(hasx && hasy)',
+                'width_x is not None and width_y is None': '(hasx && !hasy)', 'width_y is None and width_x is not None': '(hasx && !hasy)',
+                'width_x is None and width_y is not None': '(!hasx && hasy)', 'width_y is not None and width_x is None': '(!hasx && hasy)'}
+
+        def val(stmts):
+            if len(stmts) != 1:
+                raise Untranslatable('slit_ft branch with more than one statement')
+            st = stmts[0]
+            if isinstance(st, ast.If):
+                c = COND.get(ast.unparse(st.test))
+                if c is None:
+                    raise Untranslatable(f'slit_ft condition {ast.unparse(st.test)}')
+                if not st.orelse:
+                    raise Untranslatable('slit_ft: if without else')
+                return f'(if {c} then {val(st.body)} else {val(st.orelse)})'
+            if isinstance(st, ast.Return):
+                v = st.value
+                if isinstance(v, ast.Call) and isinstance(v.func, ast.Attribute) and v.func.attr == 'astype':
+                    v = v.func.value          # a dtype cast does not change the value
+                return tr.expr(v)
+            raise Untranslatable(f'slit_ft statement {ast.unparse(st)[:50]}')
+        body = [s_ for s_ in fn.body if not (isinstance(s_, ast.Expr) and isinstance(s_.value, ast.Constant))]
+        return f'def slitFt {KH} (sinc : K → K) (fx fy width_x width_y : K) (hasx hasy : Bool) : K :=\n  {val(body)}'
+    g.item('slit_ft', 'prysm/objects.py:slit_ft', lambda: get_def(ob, 'slit_ft'), slit,
+           f'def slitFt {KH} (sinc : K → K) (fx fy width_x width_y : K) (hasx hasy : Bool) : K := '
+           f'{M}.slitFt sinc fx fy width_x width_y hasx hasy')
+
+    def pinhole():
+        fn = get_def(ob, 'pinhole_ft')
+        tr = Tr({'np.pi': 'pi', 'fr': 'fr', 'radius': 'radius'}, mode='num', funcs={'jinc': 'jinc'})
+        return f'def pinholeFt {KH} (jinc : K → K) (pi fr radius : K) : K :=\n  ' + body_to_lean(fn.body, tr)
+    g.item('pinhole_ft', 'prysm/objects.py:pinhole_ft', lambda: get_def(ob, 'pinhole_ft'), pinhole,
+           f'def pinholeFt {KH} (jinc : K → K) (pi fr radius : K) : K := {M}.pinholeFt jinc pi fr radius')
+
+    # ------------------------------------------------------------------ diffraction-limited MTF (otf.py)
+    KHO = '{K : Type} [Num K] [LT K] [DecidableLT K]'
+
+    class _DropAsarray(ast.NodeTransformer):
+        """`np.asarray(x)` -> `x` (a conversion, not a value change)"""
+        def visit_Call(self, node):
+            self.generic_visit(node)
+            if ast.unparse(node.func) in ('np.asarray', 'np.asanyarray', 'np.array') and len(node.args) == 1 and not node.keywords:
+                return node.args[0]
+            return node
+
+    def difflim_core():
+        fn = get_def(ot, '_difflim_mtf_core')
+        tr = Tr({'np.pi': 'pi', 'normalized_frequency': 'nu'}, mode='num', funcs={'np.arccos': 'arccos', 'np.sqrt': 'sqrt'})
+        return f'def difflimCore {KH} (arccos sqrt : K → K) (pi nu : K) : K :=\n  ' + body_to_lean(fn.body, tr)
+    g.item('_difflim_mtf_core', 'prysm/otf.py:_difflim_mtf_core', lambda: get_def(ot, '_difflim_mtf_core'), difflim_core,
+           f'def difflimCore {KH} (arccos sqrt : K → K) (pi nu : K) : K := {M}.difflimCore arccos sqrt pi nu')
+
+    def difflim():
+        fn = get_def(ot, 'diffraction_limited_mtf')
+        tr = Tr({'wavelength': 'wavelength', 'fno': 'fno', 'frequencies': 'f'}, mode='num', funcs={'abs': 'abs', 'np.abs': 'abs'})
+        ext = tr.expr(find_assign(fn, 'extinction'))
+        branch = [n for n in fn.body if isinstance(n, ast.If) and ast.unparse(n.test) == 'frequencies is None' and n.orelse]
+        if not branch:
+            raise Untranslatable('diffraction_limited_mtf: no `if frequencies is None` / else')
+        els = branch[0].orelse
+        if not (len(els) == 2 and isinstance(els[0], ast.Assign) and ast.unparse(els[0].targets[0]) == 'normalized_frequency'
+                and isinstance(els[1], ast.Try)):
+            raise Untranslatable('diffraction_limited_mtf: else branch is not `normalized_frequency = ...; try: clamp`')
+        tr2 = Tr(dict(tr.env, extinction='extinction'), mode='num', funcs=tr.funcs)
+        nu = tr2.expr(_DropAsarray().visit(ast.parse(ast.unparse(els[0].value), mode='eval').body))
+        tr3 = Tr({'normalized_frequency': 'nu'}, mode='num')
+        t = els[1]
+        if not (len(t.body) == 1 and isinstance(t.body[0], ast.Assign) and isinstance(t.body[0].targets[0], ast.Subscript)
+                and ast.unparse(t.body[0].targets[0].value) == 'normalized_frequency'):
+            raise Untranslatable('diffraction_limited_mtf: clamp statement')
+        cond = tr3.cond(t.body[0].targets[0].slice)
+        val = tr3.expr(t.body[0].value)
+        # the scalar fall-back of the except clause must clamp the same way
+        for h in t.handlers:
+            if not (len(h.body) == 1 and isinstance(h.body[0], ast.If) and len(h.body[0].body) == 1 and not h.body[0].orelse
+                    and isinstance(h.body[0].body[0], ast.Assign) and ast.unparse(h.body[0].body[0].targets[0]) == 'normalized_frequency'):
+                raise Untranslatable('diffraction_limited_mtf: scalar clamp')
+            if tr3.cond(h.body[0].test) != cond or tr3.expr(h.body[0].body[0].value) != val:
+                raise Untranslatable('diffraction_limited_mtf: array and scalar clamps differ')
+        # what is returned for given frequencies: the core applied to the clamped normalised frequency
+        mt = find_assign(fn, 'mtf')
+        if ast.unparse(mt) != '_difflim_mtf_core(normalized_frequency)':
+            raise Untranslatable(f'diffraction_limited_mtf: mtf = {ast.unparse(mt)[:50]}')
+        rets = [ast.unparse(r) for r in find_returns(fn)]
+        if rets != ['(normalized_frequency * extinction, mtf)', 'mtf']:
+            raise Untranslatable(f'diffraction_limited_mtf returns {rets}')
+        return (f'def difflimNu {KHO} (abs : K → K) (f wavelength fno : K) : K :=\n'
+                f'  let extinction := {ext}\n  let nu := {nu}\n  if {cond} then {val} else nu')
+    g.item('diffraction_limited_mtf', 'prysm/otf.py:diffraction_limited_mtf', lambda: get_def(ot, 'diffraction_limited_mtf'), difflim,
+           f'def difflimNu {KHO} (abs : K → K) (f wavelength fno : K) : K := {M}.difflimNu abs f wavelength fno')
 
     return g.finish()
 
